@@ -63,6 +63,7 @@ def check(ctx: Ctx) -> str:
     r10_uniqueness(ctx)
     r13_emitted_literals(ctx)
     r14_dependency_finder(ctx)
+    r15_regex_ambiguity(ctx)
     from ..emitrules import c01_skeleton_rules
 
     c01_skeleton_rules(ctx)
@@ -645,3 +646,42 @@ def r14_dependency_finder(ctx: Ctx) -> None:
     ftc = repo.func("compiler:CodeGenerator._filter_test_common")
     s = ast.unparse(ftc.node)
     ctx.check("self.filters[node.name]" in s and "self.tests[node.name]" in s, "finder:consumers", "compiler:CodeGenerator._filter_test_common", "id lookup", "the id of a filter / test is looked up by node.name in the maps pull_dependencies filled", ftc.loc())
+
+
+# ------------------------------------------------------------------------ R15
+def r15_regex_ambiguity(ctx: Ctx) -> None:
+    """The "never hangs" clause for the tokenizer: `re` is a backtracking matcher, and a
+    pattern whose automaton is exponentially ambiguous (two different runs q -w-> q) makes
+    a *failing* match take time exponential in the input - an unterminated string literal
+    of 40 characters then never finishes tokenizing."""
+    from ..rx import eda_witness
+
+    ctx.rule("R15", "no regex of the lexer (module constants and the rules Lexer.__init__ builds, every syntax configuration) is exponentially ambiguous: no state q and word w with two different runs q -w-> q")
+    repo = ctx.repo
+    seen: set[tuple[str, int]] = set()
+    n = 0
+    pats: list[tuple[str, str, int, str]] = []
+    lm0 = LexModel(repo, configs()[0])
+    for name in ("whitespace_re", "newline_re", "string_re", "integer_re", "float_re"):
+        p = lm0.module_regex(name)
+        pats.append((f"lexer.{name}", p.pattern, p.flags, f"{lm0.m.rel}"))
+    for cfg in configs():
+        lm = LexModel(repo, cfg)
+        cfgname = ",".join(f"{k}={v}" for k, v in sorted(cfg.items()))
+        for state, rules in lm.rules.items():
+            for idx, rule in enumerate(rules):
+                pats.append((f"Lexer.rules[{state}][{idx}] ({cfgname})" if rule.pat.origin == "inline" else f"lexer.{rule.pat.origin}", rule.pat.pattern, rule.pat.flags, f"{lm.m.rel}:{rule.lineno}"))
+    for what, pattern, flags, loc in pats:
+        if (pattern, flags) in seen:
+            continue
+        seen.add((pattern, flags))
+        n += 1
+        try:
+            wit = eda_witness(pattern, flags)
+        except (ValueError, RecursionError) as e:  # construct outside the automaton model (back-reference ...)
+            ctx.notes.append(f"R15: {what} not analysable ({e})")
+            continue
+        ctx.check(wit is None, f"eda:{what.split(' (')[0]}", "lexer:<module>" if what.startswith("lexer.") else "lexer:Lexer.__init__", f"{what.split(' (')[0]} is exponentially ambiguous",
+                  f"{what} = {pattern[:70]!r} has two different runs over {wit[1]!r} from the state reached by {wit[0]!r}: when no match exists (an unterminated string, a stray quote) the backtracking matcher tries exponentially many splits of the text - tokenizing does not finish" if wit else "",
+                  loc, detail={"regex": what, "pump": wit[1] if wit else None})
+    ctx.floor("distinct lexer regexes analysed", n, 12)
